@@ -72,6 +72,16 @@ type passGuard struct {
 	decodedBefore int  // ... at the previous rewind
 }
 
+// Read hands out data that comes together with io.EOF without the io.EOF: the end of the source
+// is reported by the next read, after the ammo of this data is decoded and counted.
+func (g *passGuard) Read(p []byte) (int, error) {
+	n, err := g.ReadSeeker.Read(p)
+	if n > 0 && err == io.EOF {
+		err = nil
+	}
+	return n, err
+}
+
 func (g *passGuard) Seek(offset int64, whence int) (int64, error) {
 	if *g.decoded == g.decodedBefore {
 		return 0, io.EOF
